@@ -43,10 +43,7 @@ def shuffle_class_maps(rng, spec, doc, t):
             it = iter(others)
             pairs = [next(it) if (p[0][0] != 's' or p[0][1] not in pnames) else p for p in pairs]
         # recurse into attribute values where the key names a parameter of some class in the hierarchy
-        ptypes = {}
-        for c in spec:
-            for p in c.get('params', []):
-                ptypes.setdefault(p['name'], p.get('type'))
+        ptypes = {p['name']: p.get('type') for p in by[t[1]].get('params', [])}
         out = []
         for kk, v in pairs:
             pt = ptypes.get(kk[1]) if kk[0] == 's' else None
@@ -59,20 +56,26 @@ def shuffle_class_maps(rng, spec, doc, t):
 
 def canon_value(v):
     """a loaded value up to the order of the keys of plain dicts (OrderedDicts keep theirs), NaN = NaN"""
-    from collections import OrderedDict
+    import datetime
+    import enum
+    import pathlib
+    from collections import OrderedDict, UserString
     if isinstance(v, float) and v != v:
         return ('nan',)
+    if isinstance(v, enum.Enum):
+        return ('enum', type(v).__name__, v.name)
+    if isinstance(v, (str, UserString)):
+        return ('str', type(v).__name__, str(v))
+    if v is None or isinstance(v, (bool, int, float, pathlib.PurePath, datetime.date)):
+        return (type(v).__name__, repr(v))
     if isinstance(v, OrderedDict):
         return ('odict', [(canon_value(k), canon_value(x)) for k, x in v.items()])
     if isinstance(v, dict):
         return ('dict', sorted(((canon_value(k), canon_value(x)) for k, x in v.items()), key=repr))
     if isinstance(v, (list, tuple)):
         return ('list', [canon_value(x) for x in v])
-    if hasattr(v, '__dict__') and not isinstance(v, type) and type(v).__module__ not in ('builtins', 'pathlib', 'datetime', 'enum'):
-        import enum
-        if isinstance(v, enum.Enum):
-            return ('enum', type(v).__name__, v.name)
-        return ('obj', type(v).__name__, canon_value(dict(vars(v))) if not isinstance(v, str) else str(v))
+    if hasattr(v, '__dict__'):
+        return ('obj', type(v).__name__, [(k, canon_value(x)) for k, x in vars(v).items()])
     return (type(v).__name__, repr(v))
 
 
